@@ -10,6 +10,10 @@ claimed = {
          "Reflexivity, antisymmetry, transitivity and congruence are inherited from sign-equality with the reference order (a lexicographic order on canonical keys, hence a total preorder); the adapter methods are decided by interpretation with an oracle for Compare."),
  "C03": ("other", "SSA dominance/path rules over canonical terms (guards, splits, resets), abstractly evaluated character predicates and render tables, codec dataflow, GOARCH=386 width check", "3.C03",
          "Structural necessary conditions, each decided exactly; under the stated library contracts they compose to the round-trip argument of DESIGN 3.C03. Not a proof of the library calls themselves."),
+ "C04": ("other", AI + ": dependency.Parse explored on a lazily revealed input of unbounded length into a finite transition system; regular-language inclusion / emptiness against Policy 7.1 languages; token-effect events; error-discipline dataflow", "3.C04",
+         "Acceptance of a conservative Policy grammar and rejection of twelve malformed classes are decided for inputs of every length on the extracted automaton; token hygiene (no blank inside a token, no empty token), the operator set, error propagation and totality are decided; exactness of the produced AST is not."),
+ "C05": ("other", "field read/write sets over the SSA call trees, conversion scan, events of the parser transition system, " + AI + " of parse/render/parse on architecture names and on a generated family of fields", "3.C05",
+         "Renderer field coverage, byte fidelity, and absence of stored-but-unrendered entries are universal; the architecture and field fixpoints are decided on exhaustive component combinations / a generated family."),
  "C06": ("proof", AI + " on a universe exhaustive by data independence: complete decision tables with callee oracles; loop-shape check for induction over list length", "3.C06",
          "Complete decision tables of Is/IsWildcard/Matches/GetPossibilities/GetAllPossibilities/GetSubstvars/SatisfiedBy against the property's specification, exhaustive up to renaming."),
  "C11": ("other", "SSA dominance and dataflow rules over canonical terms on the clear-sign decoder (must-pass-through of a checked verification, same-block provenance of verified and parsed bytes, who-writes on the signer field, error propagation)", "3.C11",
@@ -28,6 +32,16 @@ claimed = {
          "Edges per build-dependency field (with C06 selection semantics interpreted, not mocked), edge direction, node-before-edge order, error propagation and result construction are decided; the sorter itself is trusted."),
  "C20": ("other", AI + " of the six upload methods and internal.Copy with every filesystem call replaced by an effect-recording oracle forking into success and failure", "3.C20",
          "Order of effects (control file last), failure propagation, destination paths, handle update, containment of listed names and cleanup after a failed copy are decided on every path of the oracle tree; real filesystem behaviour is not."),
+ "C07": ("other", AI + " of ParagraphReader.Next / All with the buffered reader replaced by a scripted oracle over 18 line kinds (all scripts up to length 3, with and without final newline), compared with a deb822 reference model; who-reads rule", "3.C07",
+         "The reader's line classification, folding, duplicate handling, EOF handling and the Order/Values invariant are decided for every combination of reader state class and line kind; documents outside the line kinds are not."),
+ "C08": ("other", AI + " of Paragraph.WriteTo and of the reader on the text written (line-sequence value table), receiver/typestate rules on the encoder, map-order rule", "3.C08",
+         "Write/read identity, fixpoint of repeated cycles and absence of blank lines are decided on all values of up to 3 lines over 6 line shapes; one genuine representation gap is a recorded known finding."),
+ "C09": ("other", "SSA rules over canonical terms on the reflection walkers (kind dispatch tables, tag constants, omit/required guards and their order, nil test), type-level interface checks on all document fields, " + AI + " of Paragraph.Update / Set", "3.C09",
+         "Necessary structural conditions of the round trip; package reflect itself is not interpreted."),
+ "C17": ("other", AI + " of changelog.Parse / ParseOne with a scripted reader (all scripts up to 3 lines over 14 kinds, plus every single-line edit, truncation and missing final newline of well-formed changelogs), compared with a deb-changelog reference model", "3.C17",
+         "Every entry field and the all-or-error verdict are decided on the script family; time.Parse is trusted."),
+ "C18": ("other", "global-write scan, loop classification (counted / reader / cursor loops backed by the C01 and C04 explorations), index and slice range rules over canonical terms, fatal-call and type-assertion reachability, value-xor-error dataflow", "3.C18",
+         "Shared-state freedom, termination of every loop, in-range indexing, absence of explicit panics and the value-xor-error convention are decided for the repository's own code; the standard library and data races inside it are not."),
  "C10": ("other", "type-level struct-tag tables against Debian field tables; SSA rules on the list decoder; " + AI + " of line parsers and accessors", "3.C10",
          "116 field instances and the decoder/accessor tables are decided exactly; equality with a document model for every document is not decided."),
 }
